@@ -14,7 +14,10 @@ RULE = ("problems (A,b,C,S) from tools/lib/gen_ls.py (small-integer dense with p
         "incidence graphs incl. disconnected; unit / diagonal / banded SPD covariance blocks; regularisation subsets "
         "that resolve the defect, decided exactly) x {env,chol,gso,svd} x {solver,adj}; per case q_xx(i,j) for ALL "
         "1<=i,j<=n, q0_xx(i,j) for all pairs (solver entry), q_bb(i,j) for ALL 1<=i,j<=m (inside and outside the "
-        "envelope); non-trivial = defect>0 or correlated covariance; distinct by problem text + subset + algorithm + entry")
+        "envelope); every third resolving case is asked of a REUSED object (first life on another problem of the same "
+        "or another size or under another configuration/algorithm, random repeated-row cofactor queries, then "
+        "reset/min_x/set_algorithm to the case's problem, the latest queries again next to a brand-new object, then all "
+        "entries); non-trivial = defect>0 or correlated covariance; distinct by problem text + subset + algorithm + entry")
 LEVEL_TEXT = ("Lean 4 theorems about the executable solver models: the matrix Q of reported weight coefficients of the "
               "unknowns is symmetric with N Q N = N and Q N Q = Q for N = A'PA (Q = N^-1 when the defect is zero), "
               "q_bb = A Q A', which for the homogenised system is a symmetric projector with diagonal in [0,1] whose "
